@@ -1,8 +1,8 @@
 SPECIFICATION Spec
 CONSTANTS
-  AKinds = {"none", "def", "req", "opt", "one", "bad"}
+  AKinds = {"def", "req", "opt", "one", "bad"}
   SKinds = {"plain", "opt", "req", "listopt", "listreq", "link", "linkreq", "unc"}
-  CKinds = {"def", "empty", "opt", "req", "int+", "float", "multi", "sec:req", "sec:optint"}
+  CKinds = {"def", "empty", "opt", "req", "int+", "float", "sec:req", "sec:optint"}
   DKinds = {"-", "multi", "reqone"}
   Vals = {"1", "x"}
   MaxMult = 2
